@@ -493,18 +493,21 @@ namespace llh {
                 const bool more   = i + 1 < burst.size();
                 auto       b      = d.allocate_receive_buffer();
                 ll::write_buffer t;
+                bool sent_empty_instead = false;
                 if ( b.size == 0 || b.size < 2 + cur.payload.size() )
                 {
                     ++rx_full;
                     if ( cur.payload.empty() )
                         ++rx_full_on_empty;
-                    if ( cur.payload.empty() && lenient_when_rx_full )
+                    if ( lenient_when_rx_full )
                     {
+                        // the central's PDU (an empty one, if it wanted to send something else) only delivers its header
                         static std::uint8_t scratch[ 8 ];
                         scratch[ 0 ] = static_cast< std::uint8_t >( 1 | ( sn ? 8 : 0 ) | ( nesn ? 4 : 0 ) );
                         scratch[ 1 ] = 0;
                         ++rx_full_rescued;
-                        t = d.mic_failure( ll::read_buffer{ scratch, 2 } );
+                        sent_empty_instead = !cur.payload.empty();
+                        t                  = d.mic_failure( ll::read_buffer{ scratch, 2 } );
                     }
                     else
                         t = d.next_transmit();
@@ -547,9 +550,9 @@ namespace llh {
                     if ( len != 0 )
                         ev.last_transmitted_not_empty = true;
                 }
-                if ( have && !cur.payload.empty() )
+                if ( have && !cur.payload.empty() && !sent_empty_instead )
                     ev.last_received_not_empty = true;
-                if ( taken && have )
+                if ( taken && have && !sent_empty_instead )
                 {
                     ++i;
                     ++res.delivered;
